@@ -6,6 +6,10 @@ slice, generic argument, Box) up to the tier's depth, at every position (struct 
 alias target, struct-variant field, defaulted struct-variant field), alone and in pairs, six languages, single- and
 multi-file.  Model and implementation are compared byte for byte (`l2.requests`); the oracle is the property
 evaluated on the IMPLEMENTATION's text: the helper names a file uses vs the ones it defines or imports.
+
+`mapped_builtin_part`: the same programs under configurations whose `type_mappings` keys are built-in / special Rust types
+(primitives, `()`, `OffsetDateTime`, containers spelled the way the type prints, user types), alone and in tables shared by
+all six languages, the trigger type occurring only in a mapped spelling / only elsewhere / in both.
 """
 import ast, builtins, itertools, multiprocessing, random, re
 from common import *
@@ -92,6 +96,46 @@ def build(chain, leaf):
     for w in reversed(chain):
         s, t = wrap_syn(w, s), wrap_tree(w, t)
     return s, t
+
+
+def type_id(t):
+    """`RustType::id` / `SpecialRustType::id`"""
+    if t[0] in ("prim", "simple", "generic"):
+        return t[1]
+    return {"vec": "Vec", "option": "Option", "map": "HashMap", "array": "[]", "slice": "&[]"}[t[0]]
+
+
+def display(t):
+    """`impl Display for RustType / SpecialRustType`: the string a special type is looked up by in `type_mappings`"""
+    k = t[0]
+    if k in ("prim", "simple"):
+        return t[1]
+    if k == "generic":
+        return t[1] + ("<%s>" % ", ".join(display(x) for x in t[2]) if t[2] else "")
+    if k == "vec":
+        return "Vec<%s>" % display(t[1])
+    if k == "array":
+        return "[%s]" % display(t[1])
+    if k == "slice":
+        return "&[%s]" % display(t[1])
+    if k == "map":
+        return "HashMap<%s,%s>" % (display(t[1]), display(t[2]))
+    if k == "option":
+        return "Option<%s>" % type_id(t[1])
+    raise ValueError(t)
+
+
+def mapping_key(t):
+    """the `type_mappings` key that addresses the node: a generic type is looked up by its name, everything else by its spelling"""
+    return t[1] if t[0] == "generic" else display(t)
+
+
+def spine(chain, leaf):
+    """the nodes of an entry's type tree that contain its trigger, outermost first (`Box<X>` is `X`)"""
+    out = [build(chain[i:], leaf)[1] for i in range(len(chain) + 1) if i == len(chain) or chain[i] != "Box"]
+    if leaf == "Vec<u8>":
+        out.append(("prim", "u8"))
+    return out
 
 
 TS_ATTR = m_path("typeshare")
@@ -366,13 +410,17 @@ def py_special_registrations(t, maps, acc):
 
 
 def py_datetime_imported(t, maps):
-    """does formatting the tree import `datetime` (an unmapped OffsetDateTime at any depth)"""
-    if t[0] == "prim":
-        return t[1] == "OffsetDateTime" and "OffsetDateTime" not in maps
-    if t == ("vec", ("prim", "u8")) and "Vec<u8>" in maps:
+    """does formatting the tree import `datetime` (an unmapped OffsetDateTime at any depth that the printer reaches: a
+    special type whose printed spelling is a mapping key, and a generic type whose name is one, are replaced before
+    anything below them is formatted)"""
+    if t[0] == "simple":
         return False
     if t[0] == "generic":
-        return any(py_datetime_imported(x, maps) for x in t[2])
+        return t[1] not in maps and any(py_datetime_imported(x, maps) for x in t[2])
+    if display(t) in maps:
+        return False
+    if t[0] == "prim":
+        return t[1] == "OffsetDateTime"
     if t[0] == "map":
         return py_datetime_imported(t[1], maps) or py_datetime_imported(t[2], maps)
     if t[0] in ("vec", "option", "array", "slice"):
@@ -426,7 +474,7 @@ def explained(case, names, classes):
 
 def item_names(case):
     """the names of the user's own items (an undefined one is C10's / C11's business)"""
-    return {it["ident"] for f in case["files"] for it in f["file"]["items"]}
+    return {it["ident"] for f in case["files"] for it in f["file"]["items"]} | set(case.get("user_names", ()))
 
 
 def user_only(case, names):
@@ -516,6 +564,8 @@ def evaluate(check, cases, label):
         trig = any(leaf != "String" for _, _, leaf in c["entries"])
         check.saw(key, nontrivial=trig)
         check.count("%s %s %s" % (lang, "multi" if c["multi"] else "single", label))
+        if c.get("mapped"):
+            check.count("%s mapped built-in keys: %s, trigger %s" % (lang, c["mapped"]["mode"], c["mapped"]["class"]))
         src = "\n// ---- next file ----\n".join(texts)
         replay = {"lang": lang, "config": c["cfg"], "multi_file": c["multi"], "source": src, "request": rreq,
                   "entries": c["entries"]}
@@ -549,8 +599,15 @@ def evaluate(check, cases, label):
                 if ok_known:
                     continue
             back = returned_python(c) if lang == "python" else []
-            check.violation("%s output uses helper names that it neither defines nor imports: %s%s" % (
-                lang, problems, " - the repaired finding %s has returned" % " / ".join(back) if back else ""),
+            about = ""
+            if c.get("mapped"):
+                about = (" - with [%s.type_mappings] %s (keys that are built-in / special Rust types or user types; the "
+                         "helper-triggering types of the program occur %s)" % (
+                             lang, json.dumps(c["cfg"].get("type_mappings", {}), sort_keys=True),
+                             {"only mapped": "only inside types spelled like a key", "only elsewhere": "only outside the mapped types",
+                              "both": "both inside and outside the mapped types", "no trigger": "nowhere"}[c["mapped"]["class"]]))
+            check.violation("%s output uses helper names that it neither defines nor imports: %s%s%s" % (
+                lang, problems, " - the repaired finding %s has returned" % " / ".join(back) if back else "", about),
                             case=replay, impl=ra, model=ma, failing_input=True)
             continue
         if classes:
@@ -663,9 +720,118 @@ def language_cases(lang, thorough, depth, mdepth):
                              for ch in chains(1) for leaf in ["u8", "String", "()"] for pos in POSITIONS for m in (False, True)]
 
 
+# ----------------------------------------------------------------------------- built-in types as type-mapping keys
+
+# replacement texts per language: none of them spells a helper name of its language, except the ones the back end itself
+# treats as custom-translated (TypeScript Uint8Array / Date, Python bytes / datetime) - there typeshare owes the helper
+MAP_TARGETS = {
+    "typescript": ["Uint8Array", "Date", "Mapped", "string"],
+    "kotlin": ["ByteArray", "Mapped", "Long"],
+    "swift": ["Data", "Mapped", "Int64"],
+    "scala": ["ByteString", "Mapped", "Long"],
+    "go": ["[]byte", "Mapped", "int64"],
+    "python": ["bytes", "datetime", "int", "str"],
+}
+# keys of a shared table that address nothing the trigger sits in (other built-in types, spelled as they print)
+BYSTANDER_KEYS = ["i32", "bool", "f64", "char", "I54", "i8", "f32", "String", "Other", "Vec<i32>", "Vec<String>", "Option<bool>",
+                  "Option<Vec>", "HashMap<String,i32>", "[bool]", "&[i32]", "Vec<Vec<i8>>"]
+MAPPED_LEAVES = LEAVES + PY_ONLY_LEAVES      # here `Stamp` is a user type for every language (mapped or not by the table drawn)
+
+
+def mapped_class(entries, keys):
+    """where the helper-triggering types of a program sit relative to the mapping keys (read off the Rust spelling alone,
+    whatever the back end makes of the key): only inside mapped types / only elsewhere / both"""
+    hit = [any(mapping_key(n) in keys for n in spine(ch, leaf)) for _, ch, leaf in entries if leaf != "String"]
+    if not hit:
+        return "no trigger"
+    return "only mapped" if all(hit) else "both" if any(hit) else "only elsewhere"
+
+
+def mapped_builtin_cases(lang, seed, thorough):
+    """the cases of `mapped_builtin_part` for one language.  The random stream does not depend on the language: all six
+    languages see the same programs with the same key sets (a table shared between the languages' sections), only the
+    replacement texts are the language's own."""
+    rng = random.Random("C12 mapped built-in keys %d" % seed)
+    targets = MAP_TARGETS[lang]
+
+    def table(keys):
+        return {k: targets[rng.randrange(60) % len(targets)] for k in keys}
+
+    def case(entries, keys, mode):
+        layout = rng.randrange(10)              # drawn for every case so that the stream stays the same for all languages
+        multi, first, needy = layout >= 7, layout % 2 == 0, layout == 9
+        cfg = {k: v for k, v in CFG[lang].items() if k != "type_mappings"}
+        cfg["type_mappings"] = table(keys)
+        c = make_case(entries, lang, multi, trigger_first=first, cfg=cfg, needy=needy and multi)
+        c["mapped"] = {"mode": mode, "class": mapped_class(entries, set(keys))}
+        c["user_names"] = ["Stamp"]         # a type of the user's that is not annotated: not typeshare's to define
+        return c
+
+    def entry(leaf=None):
+        return (rng.choice(POSITIONS), tuple(rng.choice(WRAPPERS) for _ in range(rng.choice([0, 0, 1, 1, 2, 2, 3]))),
+                leaf or rng.choice(MAPPED_LEAVES))
+
+    cases = []
+    # alone: one trigger, one key - every node of the trigger's type tree in turn (the leaf itself, each container around it)
+    for ch in chains(3 if thorough else 2):
+        for leaf in MAPPED_LEAVES:
+            nodes = spine(ch, leaf)
+            for node in nodes:
+                for _ in range(2 if thorough else 1):
+                    cases.append(case([(rng.choice(POSITIONS), ch, leaf)], [mapping_key(node)], "one key"))
+    # tables: several entries, several keys
+    for i in range(40000 if thorough else 3000):
+        mode = ["table, every trigger mapped", "table, some triggers mapped", "table, bystander keys only",
+                "table, same trigger mapped and unmapped"][i % 4]
+        entries = [entry() for _ in range(rng.choice([1, 2, 2, 3]))]
+        keys = rng.sample(BYSTANDER_KEYS, rng.choice([0, 1, 1, 2]))
+        if mode == "table, every trigger mapped":
+            keys += [mapping_key(rng.choice(spine(ch, leaf))) for _, ch, leaf in entries]
+        elif mode == "table, some triggers mapped":
+            some = rng.sample(entries, rng.randrange(1, len(entries) + 1))
+            keys += [mapping_key(rng.choice(spine(ch, leaf))) for _, ch, leaf in some]
+        elif mode == "table, bystander keys only":
+            # spellings of types that do not occur: what another program of the same project uses
+            other = [entry() for _ in range(2)]
+            keys += [mapping_key(rng.choice(spine(ch, leaf))) for _, ch, leaf in other]
+            here = {mapping_key(n) for _, ch, leaf in entries if leaf != "String" for n in spine(ch, leaf)}
+            keys = [k for k in keys if k not in here] or ["i32"]
+        else:
+            # the first trigger twice: once below a container that is a key, once bare or below other containers
+            pos, ch, leaf = entries[0]
+            if not ch:
+                ch = (rng.choice(WRAPPERS[:6]),)
+                entries[0] = (pos, ch, leaf)
+            outer = [n for n in spine(ch, leaf) if n[0] not in ("prim", "simple")] or spine(ch, leaf)
+            keys.append(mapping_key(rng.choice(outer)))
+            entries.append((rng.choice(POSITIONS), rng.choice([(), (), ("Option",), ("Vec", "Vec"), ("Map",), ("Wrap",)]), leaf))
+        cases.append(case(entries, sorted(set(keys)), mode))
+    return cases
+
+
+def mapped_builtin_part(check, lang, seed, thorough):
+    """Dimension: the keys of `[<lang>.type_mappings]`.  The other parts only ever map `Vec<u8>` (TypeScript, Go, Python) and
+    the user type `Stamp` (Python); here the keys are *built-in / special* Rust types spelled the way `Display` prints them -
+    primitives (`u8` `u16` `u32` `U53` `String` `bool` ...), `()`, `OffsetDateTime`, containers at any depth (`Vec<u8>`,
+    `Vec<Vec<u16>>`, `Option<Vec>`, `HashMap<String,u32>`, `[u8]`, `&[u16]`), a generic parameter, the user types `Stamp` and
+    `Wrap` - for every language, whether or not its printer honours such a key (TypeScript, Go and Python look a special type up
+    before they print it; Kotlin, Swift and Scala print built-in types without consulting the table and honour only user /
+    generic type names).  One key alone: every node of the trigger's type tree (chains of <= 2 wrappers, 3 thorough) in turn.
+    Tables (the same keys for all six languages, replacement texts per language): 1-3 entries at random positions with
+    keys for every trigger / for some / for none (spellings that occur nowhere plus other built-in types) / for one of two
+    occurrences of the same trigger; single- and multi-file (neutral and needy second crate).
+    Demand: exactly C12's - the helper names the IMPLEMENTATION's text uses are defined or imported in it (per-language
+    oracle, unchanged); nothing is demanded about which keys a back end honours.  Model and implementation are compared
+    byte for byte as everywhere else in this file."""
+    cases = mapped_builtin_cases(lang, seed, thorough)
+    for i in range(0, len(cases), 20000):
+        evaluate(check, cases[i:i + 20000], "mapped-builtin")
+
+
 def worker(args):
-    lang, thorough, depth, mdepth, open_ids = args
+    lang, thorough, depth, mdepth, open_ids, seed = args
     rec = Recorder(open_ids)
+    mapped_builtin_part(rec, lang, seed, thorough)
     for label, cases in language_cases(lang, thorough, depth, mdepth):
         for i in range(0, len(cases), 20000):
             evaluate(rec, cases[i:i + 20000], label)
@@ -680,7 +846,11 @@ def run(check):
                   "also defaulted; triples alias + tuple payload + defaulted struct-variant field; six languages; single-file, "
                   "and multi-file (two crates, the trigger crate generated first and second) for chains of <= %d wrappers; "
                   "Kotlin also without a package.  Depth of the type tree = chain + leaf.  non-trivial = the trigger is not "
-                  "the neutral leaf `String`" % (LEAVES, PY_ONLY_LEAVES, depth, WRAPPERS, POSITIONS, mdepth))
+                  "the neutral leaf `String`.  Plus (mapped_builtin_part, seeded by --seed): the same kinds of program under "
+                  "type_mappings tables whose keys are built-in / special Rust types and user types - one key for every node of "
+                  "the trigger's type tree (chains of <= %d wrappers), and random tables shared by all six languages with the "
+                  "trigger only inside / only outside / inside and outside the mapped types"
+                  % (LEAVES, PY_ONLY_LEAVES, depth, WRAPPERS, POSITIONS, mdepth, 3 if check.thorough else 2))
     # stored witnesses of the known findings, replayed first
     evaluate(check, [make_case(entries, lang, False, cfg=cfg) for _, lang, entries, cfg in WITNESSES], "witness")
     for kid, lang, entries, cfg in WITNESSES:
@@ -688,7 +858,7 @@ def run(check):
             check.notes.append("witness of %s no longer fails" % kid)
     evaluate(check, [make_case(entries, lang, False) for lang, entries in REGRESSIONS], "regression")
     with multiprocessing.get_context("fork").Pool(len(LANGS)) as pool:
-        for events in pool.imap(worker, [(lang, check.thorough, depth, mdepth, sorted(check.open)) for lang in LANGS]):
+        for events in pool.imap(worker, [(lang, check.thorough, depth, mdepth, sorted(check.open), check.seed) for lang in LANGS]):
             replay_events(check, events)
     check.exhaustive = True
     check.extra["exhaustive_scope"] = ("%d leaves x %d chains x %d positions x 6 languages (single file; multi-file for chains "
